@@ -722,7 +722,7 @@ def corr_member_stmts(ctx, corr):
                 msg = "model decodes the statement but the implementation rejects it"
             elif r[0] == 'ok' and r[1] != m[1]:
                 msg = "model %s; implementation %s" % (m[1], r[1])
-        elif m[0] == 'err' and m[1] in (1, 2, 3) and r[0] == 'ok':
+        elif m[0] == 'err' and m[1] in (1, 2, 3) and r[0] == 'ok' and not decl.final_as_name(toks):
             msg = "model rejects (code %d) but the implementation reports %s" % (m[1], r[1])
         elif m[0] == 'err' and m[1] == 9:
             msg = "model ran out of fuel"
@@ -972,7 +972,7 @@ def corr_finish(ctx, corr):
         k_ = "finish:" + (m[0] if m[0] == 'ok' else 'err%d' % m[1]) + "/" + r[0]
         corr.dist[k_] = corr.dist.get(k_, 0) + 1
         msg = None
-        if r[0] != 'other' and not (m[0] == 'err' and m[1] == 4):
+        if r[0] != 'other' and not (m[0] == 'err' and m[1] == 4) and not (m[0] == 'err' and decl.final_as_name(toks)):
             if m[0] == 'err' and m[1] == 9:
                 msg = "model ran out of fuel"
             elif (m[0] == 'ok') != (r[0] == 'ok'):
@@ -1070,7 +1070,7 @@ def corr_conv_ops(ctx, corr):
                 msg = "model decodes the conversion operator but the implementation rejects it"
             elif r[0] == 'ok' and r[1:] != m[1:4]:
                 msg = "model %s; implementation %s" % (m[1:4], r[1:])
-        elif m[0] == 'err' and m[1] in (1, 2, 3) and r[0] == 'ok':
+        elif m[0] == 'err' and m[1] in (1, 2, 3) and r[0] == 'ok' and not decl.final_as_name(toks):
             msg = "model rejects (code %d) but the implementation reports %s" % (m[1], r[1:])
         elif m[0] == 'err' and m[1] == 9:
             msg = "model ran out of fuel"
@@ -1179,7 +1179,7 @@ def corr_op_members(ctx, corr):
                 msg = "model decodes the operator member but the implementation rejects it"
             elif r[0] == 'ok' and r[1:] != m[1:5]:
                 msg = "model %s; implementation %s" % (m[1:5], r[1:])
-        elif m[0] == 'err' and m[1] in (1, 2, 3) and r[0] == 'ok':
+        elif m[0] == 'err' and m[1] in (1, 2, 3) and r[0] == 'ok' and not decl.final_as_name(toks):
             msg = "model rejects (code %d) but the implementation reports %s" % (m[1], r[1:])
         elif m[0] == 'err' and m[1] == 9:
             msg = "model ran out of fuel"
@@ -1293,7 +1293,7 @@ def corr_friends(ctx, corr):
                 msg = "model decodes the friend declaration but the implementation rejects it"
             elif r[0] == 'ok' and tuple(r[1:]) != tuple(m[1:-1]):
                 msg = "model %s; implementation %s" % (m[1:-1], r[1:])
-        elif m[0] == 'err' and m[1] in (1, 2, 3) and r[0] == 'ok':
+        elif m[0] == 'err' and m[1] in (1, 2, 3) and r[0] == 'ok' and not decl.final_as_name(toks):
             msg = "model rejects (code %d) but the implementation reports %s" % (m[1], r[1:])
         elif m[0] == 'err' and m[1] == 9:
             msg = "model ran out of fuel"
